@@ -2,6 +2,7 @@ import PdshVerif.Base.Hex
 import PdshVerif.Relay.Model
 import PdshVerif.Relay.Growth
 import PdshVerif.Relay.Spec
+import PdshVerif.Relay.XPoll
 import Driver.Util
 
 /-! line protocol of the relay engine (same op lines as harness/relay_harness.c):
@@ -22,6 +23,13 @@ import Driver.Util
     rcperr i e POPT RV HEX ...  (`_parallel_copy` with pcp_server/pcp_client returning RV)
                                                     -> rcp <RV> | S:HEX ...
     xrc HEX                                         -> <ret> <string left>
+
+    pdshmodel relay xpoll                           `XPoll.xpoll` / `XPoll.loopIter` (Relay/XPoll.lean)
+      xp NFDS TIMEOUT null|fd:ev:rev,.. KANS   (KANS = E<errno> | R<rv>:<revents>,.. -- what poll(2) answers)
+                                                    -> <rv> <errno> | -|<timeout>;fd:ev,.. | fd:ev:rev,..
+      it SOPT TBEFORE TAFTER FDO FDE STALEO STALEE KANS [ERRFIRST]   (one iteration of the loop of _rsh_thread;
+                                                     ERRFIRST = 1: the code under test serves stderr first)
+                                                    -> <timeoutBefore|pollFailed|timeoutInPoll|again|dispatch> <calls: - o e oe>
 
     spec lines:  rec <o|e> L K i N name_0 .. name_{N-1} S K' em_1 .. em_K'
                  (S = the whole byte string host i's stream carried, em_j = the observed stdio calls)
@@ -171,6 +179,57 @@ def specLine (line : String) : String :=
     | _, _ => "bad-op"
   | _ => "bad-op"
 
+/-- `E<errno>` | `R<rv>:<revents>,..` -/
+def parseKAns (w : String) : Option XPoll.KAns :=
+  if w.startsWith "E" then (w.drop 1).toString.toNat?.map XPoll.KAns.fail
+  else if w.startsWith "R" then
+    match (w.drop 1).toString.splitOn ":" with
+    | [rv, revs] =>
+      match rv.toInt?, (if revs = "" then some [] else (revs.splitOn ",").mapM String.toNat?) with
+      | some rv, some revs => some (.ok rv revs)
+      | _, _ => none
+    | _ => none
+  else none
+
+def parseXFds (w : String) : Option (Option (List XPoll.XFd)) :=
+  if w = "null" then some none
+  else if w = "-" then some (some [])
+  else
+    ((w.splitOn ",").mapM fun (e : String) =>
+      match e.splitOn ":" with
+      | [fd, ev, rev] =>
+        match fd.toInt?, ev.toNat?, rev.toNat? with
+        | some fd, some ev, some rev => some (⟨fd, ev, rev⟩ : XPoll.XFd)
+        | _, _, _ => none
+      | _ => none).map some
+
+def xpollLine (line : String) : String :=
+  match Driver.words line with
+  | ["xp", nfds, timeout, arr, kans] =>
+    match nfds.toInt?, timeout.toInt?, parseXFds arr, parseKAns kans with
+    | some nfds, some timeout, some xfds, some k =>
+      let r := XPoll.xpoll xfds nfds timeout k
+      let passed := match r.passed with
+        | none => "-"
+        | some (l, t) => s!"{t};" ++ ",".intercalate (l.map fun (p : Int × Nat) => s!"{p.1}:{p.2}")
+      let xs := if r.xfds.isEmpty then "-" else ",".intercalate (r.xfds.map fun x => s!"{x.fd}:{x.events}:{x.revents}")
+      s!"{r.rv} {r.errno} | {passed} | {xs}"
+    | _, _, _, _ => "bad-op"
+  | "it" :: sopt :: tb :: ta :: fdo :: fde :: so :: se :: kans :: more =>
+    match fdo.toInt?, fde.toInt?, so.toNat?, se.toNat?, parseKAns kans with
+    | some fdo, some fde, some so, some se, some k =>
+      let it := (XPoll.loopIter (sopt ≠ "0") (tb ≠ "0") (ta ≠ "0") fdo fde so se k).1
+      let nm := match it with
+        | .timeoutBefore => "timeoutBefore"
+        | .pollFailed => "pollFailed"
+        | .timeoutInPoll => "timeoutInPoll"
+        | .again => "again"
+        | .dispatch _ _ => "dispatch"
+      let calls := String.join ((it.calls (more.head? = some "1")).map fun b => if b then "e" else "o")
+      s!"{nm} {if calls = "" then "-" else calls}"
+    | _, _, _, _, _ => "bad-op"
+  | _ => "bad-op"
+
 def splitArg (a : List String) : Bool :=
   match a with
   | ["split"] => true
@@ -187,6 +246,7 @@ def main (args : List String) : IO UInt32 := do
     let m := m.toNat?.getD 1
     Driver.forLines stdin (none : Option (Case PBuf)) (step fifoOps (mkFifoBuf m) m (splitArg rest)); return 0
   | ["spec"] => Driver.forLines stdin () (fun _ l => ((), specLine l)); return 0
+  | ["xpoll"] => Driver.forLines stdin () (fun _ l => ((), xpollLine l)); return 0
   | ["growth", m] =>
     -- the side condition of the losslessness theorems on the regenerated constants (Relay/Growth.lean)
     let m := m.toNat?.getD 1
